@@ -49,13 +49,20 @@ for name in sorted(os.listdir(root)):
     json.dump(meta, open(os.path.join(d, 'meta.json'), 'w'), indent=1)
     caught = [c for c, r in runs.items() if r['violations'] > 0]
     missed = [c for c, r in runs.items() if r['violations'] == 0]
+    inconclusive = [c for c, r in runs.items() if r['violations'] == 0 and 'timeouts=0' not in r['summary'] and 'timeouts=' in r['summary']]
     first = ''
     for c in caught:
         if runs[c]['signatures']:
             first = runs[c]['signatures'][0]
             break
     summ = (am.get('summary', '') or '').replace('|', '/').replace('\n', ' ')
-    rows.append('| %s | %s | %s | %s | %s |' % (name, ', '.join(files).replace('src/', ''), summ[:150], ', '.join(caught) or '—', (', '.join(missed) + ' missed') if missed and not caught else (first[:90].replace('|', '/'))))
-print('| change | file | what it does | caught by (quick) | first signature / note |')
+    summ = re.sub(r'\s+', ' ', summ)
+    verdict = ', '.join(caught) if caught else ('inconclusive (watchdog, exit 2): ' + ', '.join(inconclusive) if inconclusive else 'missed by ' + ', '.join(missed))
+    own = name.split('-')[0]
+    note = first[:100].replace('|', '/')
+    if caught and own not in caught:
+        note = 'not by %s itself (the change is in the command line tool); ' % own + note
+    rows.append('| %s | %s | %s | %s | %s |' % (name, ', '.join(files).replace('src/', ''), summ[:170], verdict, note))
+print('| change | file | what it does | caught by (quick tier) | first signature / note |')
 print('|---|---|---|---|---|')
 print('\n'.join(rows))
